@@ -217,6 +217,14 @@ def render(design):
 
 
 def design_of_text(text):
+    """None when the text is not in the scanner's grammar (e.g. a statement line without operands)"""
+    try:
+        return _design_of_text(text)
+    except (IndexError, ValueError, KeyError):
+        return None
+
+
+def _design_of_text(text):
     """Independent scanner: EBLIF text (top model first, then .blackbox models) -> abstract design.
     Comment lines (`#` first word) and blank lines are dropped; `\\` at the end of a line joins."""
     joined = re.sub(r"(?m)[ \t]\\[ \t]*\n", " ", text)
